@@ -280,7 +280,7 @@ def gen_spec(rng: random.Random, *, for_fit: bool = True, small: bool = False) -
     t_end = _r(rng, 6.0, 15.0, 2)
     link_mode = rng.choice(["auto", "true", "false"]) if n_ds > 1 else rng.choice(["auto", "false"])
     axis_mode = rng.choice(["same", "shifted", "overlap"]) if n_ds > 1 else "same"
-    full_model = (not small) and rng.random() < 0.15
+    full_model = rng.random() < 0.15
     two_groups = n_ds > 1 and rng.random() < 0.3 and not full_model
     if full_model and link_mode == "true":
         link_mode = "false"
@@ -367,10 +367,18 @@ def gen_spec(rng: random.Random, *, for_fit: bool = True, small: bool = False) -
             mshape[c] = f"sh{i + 1}"
         model["shape"] = shapes
         model["megacomplex"]["mc_spec"] = {"type": "spectral", "shape": mshape}
+        axis_scale = rng.choice([None, None, 2.0, 0.5])
         for label in model["dataset"]:
             model["dataset"][label]["megacomplex"] = ["mc_decay"]
             model["dataset"][label]["global_megacomplex"] = ["mc_spec"]
             model["dataset"][label].pop("megacomplex_scale", None)
+            if axis_scale is not None:
+                model["dataset"][label]["spectral_axis_scale"] = axis_scale
+        if axis_scale is not None:
+            for item in params["shape"]:
+                if item[0].startswith(("loc", "wid")):
+                    item[1] = round(item[1] * axis_scale, 3)
+            feats.append("axisscale")
         for m in ("mc_base", "mc_coh", "mc_osc", "mc_pfid"):
             model["megacomplex"].pop(m, None)
         feats.append("fullmodel")
